@@ -31,7 +31,8 @@ fn pick_id(rng: &mut Rng, st: &RealState) -> usize {
 
 pub fn random_op(rng: &mut Rng, st: &RealState) -> String {
     let slots = slots_of(&st.tree);
-    match rng.below(18) {
+    match rng.below(19) {
+        18 => format!("ar.setlen\t{}\t{}", pick_id(rng, st), scaled(gen_len(rng, LenKind::Dyadic)).unwrap()),
         17 => format!("ar.add_copy\t{}\t{}\t{}", pick_id(rng, st), pick_id(rng, st), len_tok(rng)),
         16 => format!("ar.setname\t{}\t{}", pick_id(rng, st), if rng.chance(1, 8) { "-".to_string() } else { format!("h{}", hex(&format!("R{}", rng.below(100000)))) }),
         0 | 1 => format!("ar.add_child\t{}\t{}\t{}", pick_id(rng, st), len_tok(rng), if rng.chance(1, 2) { format!("h{}", hex(&format!("N{}", rng.below(1000)))) } else { "-".into() }),
@@ -94,7 +95,7 @@ fn all_ops(st: &RealState) -> Vec<String> {
 }
 
 fn is_structural(cmd: &str) -> bool {
-    !(cmd.starts_with("ar.rescale") || cmd.starts_with("ar.setname") || cmd.starts_with("ar.reset_depths") || cmd.starts_with("ar.dump") || cmd.starts_with("ar.inv"))
+    !(cmd.starts_with("ar.rescale") || cmd.starts_with("ar.setname") || cmd.starts_with("ar.setlen") || cmd.starts_with("ar.reset_depths") || cmd.starts_with("ar.dump") || cmd.starts_with("ar.inv"))
 }
 
 /// executes one history on a fresh real state; oracle = invariant on the real arena after every step
